@@ -123,6 +123,13 @@ def affine_laws(t, devs):
     I = (1, 0, 0, 1, 0, 0)
     mm, ap = U.mult_matrix, U.apply_matrix_pt
     bad = []
+    if t.coin(30, 100, "floats.first"):
+        # the same values as binary floats first (layout code works in floats): the exact results below may not depend
+        # on what was computed before
+        fm = [tuple(float(v) for v in x) for x in m]
+        mm(fm[0], fm[1]), mm(mm(fm[0], fm[1]), fm[2]), ap(fm[0], (float(p[0]), float(p[1])))
+        m = [tuple(Fraction(v) for v in x) for x in fm]  # exactly the values the floats stand for
+        p = (Fraction(float(p[0])), Fraction(float(p[1])))
     if mm(mm(m[0], m[1]), m[2]) != mm(m[0], mm(m[1], m[2])):
         bad.append("associativity")
     if mm(m[0], I) != m[0] or mm(I, m[0]) != m[0]:
